@@ -25,13 +25,15 @@ class LevyLiborModel(LevyDrivenSDEModel):
         sigma: np.array,
         driver: LevyDriver,
     ):
+        # the tenors come as a list: the coefficient function and the accrual periods need the sorted array
+        sorted_tenors = np.array(sorted(tenors))
         super().__init__(
             driver=driver,
             x0=np.array(libor_rates),
-            a=LiborSDEFunction(sigma=sigma, tenors=tenors),
+            a=LiborSDEFunction(sigma=sigma, tenors=sorted_tenors),
         )
-        self.tenors = np.array(sorted(tenors))
-        self.deltas = np.diff(tenors).astype(float)
+        self.tenors = sorted_tenors
+        self.deltas = np.diff(sorted_tenors).astype(float)
 
         # consistency checks:
         if not driver.finite_first_moment():
